@@ -81,7 +81,7 @@ def random_basis(rnd, m):
     return "".join(cs) or "-", "".join(rs) or "-"
 
 
-def case_script(rnd, m, c):
+def case_script(rnd, m, c, returns_basis=False):
     """script lines for one (LP, config); the judged solve is the LAST solve command of the script"""
     L = []
     bmode = c["basis"]
@@ -107,7 +107,7 @@ def case_script(rnd, m, c):
     L += model.script_any(m, "p0", rnd)
     L += param_lines(c, "p0")
     L.append("set_precision %d" % c["prec"])
-    if c["entry"].startswith("exact") and rnd.random() < 0.4:
+    if c["entry"].startswith("exact") and not returns_basis and rnd.random() < 0.4:
         # the basis is already in the problem (QSload_basis) instead of being handed to the exact driver
         L.append("load_basis p0 b0")
         L.append(solve_line(c, "p0", "-"))
